@@ -60,3 +60,46 @@ Definition del_in_scope (d : disk) (o : op) : Prop :=
 Definition tx_ex_store : store := [(0, Full 3 [1]); (1, Full 1 [])].
 Definition tx_ex_cache : cache := [(0, 3); (1, 1)].
 Definition tx_ex_tmpl : tmpl := Node 4 9 9 [Node 5 1 1 [Node 1 1 1 []]; Node 5 2 2 [Node 1 1 1 []]].
+
+(* ------------------------------------------------------------------------------------------------------------ *)
+(* round 4: the EXACT guard.  guard_C11_tx is sufficient only (outside guard_C11_dup_id an orphan entry of the buffer
+   may refer to the root without harm).  What clause (a) needs, no more and no less, is that the storage is
+   completely loadable after every prefix of the buffer (the backends replace documents atomically, so these are the
+   only contents a reader can see): executable, on the inputs of the operation alone.                             *)
+Definition all_loadb (s : store) : bool := forallb (fun i => loadsb (length s) s i) (keys s).
+
+Fixpoint prefixes_loadb (s : store) (T : list (id * doc)) : bool :=
+  all_loadb s && match T with
+                 | [] => true
+                 | (i, x) :: r => prefixes_loadb (aset i x s) r
+                 end.
+
+(* the buffer the operation flushes, if it gets that far (mirrors plan_of) *)
+Definition flushed (d : disk) (c : cache) (o : op) : option txbuf :=
+  let ks := keys (view d) in
+  match o with
+  | OOverwrite n => match collect ks c n [] with Ok tx => Some tx | Err _ => None end
+  | OStore n =>
+      match n with
+      | Bad => None
+      | Node i _ _ _ =>
+          match lookup i c with
+          | Some _ => None
+          | None => if memb i ks then None
+                    else match collect ks c n [] with Ok tx => Some tx | Err _ => None end
+          end
+      end
+  | _ => None
+  end.
+
+Definition guard_C11_exact (d : disk) (c : cache) (o : op) : bool :=
+  match flushed d c o with
+  | Some tx => prefixes_loadb (view d) (proj tx)
+  | None => true
+  end.
+
+(* outside guard_C11_tx, inside guard_C11_exact: the first object named 7 and its child 5 (which refers to the cached
+   object of the root 0) are replaced in the buffer by the second object named 7; the entry 5 stays as an orphan *)
+Definition orphan_store : store := [(0, Full 9 [])].
+Definition orphan_cache : cache := [(0, 9)].
+Definition orphan_tmpl : tmpl := Node 0 1 1 [Node 7 2 2 [Node 5 3 3 [Node 0 9 9 []]]; Node 7 4 4 []].
